@@ -533,6 +533,35 @@ func manyTargetsSpec() seqmc.Spec {
 	return seqmc.Spec{Name: "configurations with 0 / 5 / 6 targets: one load adds, updates or deletes five or six targets together (closure)", Ops: names, Depth: 30, New: func() seqmc.Sys { fullMemory = false; return newSys(ops, false, false) }}
 }
 
+// metaSpec: one target whose free-form settings map (Target.meta) takes every
+// shape of a small family - absent, flags with EMPTY values, the same flags
+// with values, one key renamed into another, one or two entries - and whose
+// address list grows, shrinks and reorders (closure).
+func metaSpec() seqmc.Spec {
+	metas := []map[string]string{nil, {}, {"a": ""}, {"b": ""}, {"a": "1"}, {"b": "1"}, {"a": "", "b": ""}, {"a": "", "c": ""}, {"a": "1", "b": ""}}
+	addrs := [][]string{{"x"}, {"x", "y"}, {"y", "x"}}
+	var ops []loadOp
+	var names []string
+	for mi, m := range metas {
+		for _, ad := range addrs {
+			m, ad := m, ad
+			o := loadOp{name: fmt.Sprintf("t1 meta=%v (shape %d) addresses=%v rev+1", m, mi, ad), rev: 1, cfg: func() *tpb.Configuration {
+				t := &tpb.Target{Addresses: append([]string{}, ad...), Request: "r1"}
+				if m != nil {
+					t.Meta = map[string]string{}
+					for k, v := range m {
+						t.Meta[k] = v
+					}
+				}
+				return &tpb.Configuration{Request: map[string]*gpb.SubscribeRequest{"r1": request("A")}, Target: map[string]*tpb.Target{"t1": t}}
+			}}
+			ops = append(ops, o)
+			names = append(names, o.name)
+		}
+	}
+	return seqmc.Spec{Name: "one target, every shape of its settings map (absent, empty-valued flags, renamed keys, values) x address lists (closure)", Ops: names, Depth: 30, New: func() seqmc.Sys { fullMemory = false; return newSys(ops, false, false) }}
+}
+
 func (harness) Specs(tier string) []seqmc.Spec {
 	ex := extremes()
 	var exNames []string
@@ -577,7 +606,7 @@ func (harness) Specs(tier string) []seqmc.Spec {
 			sharedNames = append(sharedNames, o.name)
 		}
 		sharedSpec := seqmc.Spec{Name: "from NewConfig 2 targets NAMED LIKE the requests r1, r2 (closure)", Ops: sharedNames, Depth: 30, New: func() seqmc.Sys { fullMemory = false; return newSys(sharedOps, false, false) }}
-		return append(append(append(append(append(mk("2 targets, full rejected-load memory", universe(false), true), mk("3 targets", universe(true), false)...), sharedSpec), extSpecOf()), exSpec), historiesSpec(5), manyTargetsSpec())
+		return append(append(append(append(append(mk("2 targets, full rejected-load memory", universe(false), true), mk("3 targets", universe(true), false)...), sharedSpec), extSpecOf()), exSpec), historiesSpec(5), manyTargetsSpec(), metaSpec())
 	}
 	// target names that are also request names (per-device requests named after the device)
 	sharedOps := universe(false, "r1", "r2", "t3")
@@ -586,7 +615,7 @@ func (harness) Specs(tier string) []seqmc.Spec {
 		sharedNames = append(sharedNames, o.name)
 	}
 	sharedSpec := seqmc.Spec{Name: "from NewConfig 2 targets NAMED LIKE the requests r1, r2 (closure)", Ops: sharedNames, Depth: 30, New: func() seqmc.Sys { fullMemory = false; return newSys(sharedOps, false, false) }}
-	return append(append(append(append(mk("2 targets", universe(false), false), sharedSpec), extSpecOf()), exSpec), historiesSpec(4), manyTargetsSpec())
+	return append(append(append(append(mk("2 targets", universe(false), false), sharedSpec), extSpecOf()), exSpec), historiesSpec(4), manyTargetsSpec(), metaSpec())
 }
 
 func main() { seqmc.Main(harness{}) }
